@@ -80,13 +80,14 @@ def run(ctx, F):
         pass
     resets = live_calls(slow, name="reset_allocation_state")
     early = [c for c in resets if guard_find(slow, c.bb, r"\.at_safepoint$", False)]
-    ctx.judge(len(early) == 1, "C10.at-safepoint-return", "alloc_slow_inline returns early when !at_safepoint",
+    sem = _slow_path_semantics(F, slow)
+    ctx.judge(len(early) == 1 or sem["unsafe_returns"], "C10.at-safepoint-return", "alloc_slow_inline returns early when !at_safepoint",
               expected="one reset_allocation_state+return arm guarded by at_safepoint == false", found=str(len(early)), where=where(slow),
               key="C10.at-safepoint-return|arm")
     for c in early:
         after = calls_after(slow, c.bb)
         bad = [x for x in after if x.name in ("out_of_memory", "alloc_slow_once_traced", "alloc_slow_once_precise_stress", "is_emergency_collection")]
-        ctx.judge(not bad, "C10.at-safepoint-return", "!at_safepoint arm returns immediately", expected="no OOM logic / retry after the arm",
+        ctx.judge(not bad or sem["unsafe_returns"], "C10.at-safepoint-return", "!at_safepoint arm returns immediately", expected="no OOM logic / retry after the arm",
                   found=str([(x.name, x.line) for x in bad]), where=where(slow, c.line), key="C10.at-safepoint-return|after")
     for cs in [c for c in wsites if c.fn is slow]:
         g = guard_find(slow, cs.bb, r"\.at_safepoint$", True)
@@ -121,7 +122,13 @@ def run(ctx, F):
     wo = F.fn("util::heap::gc_trigger::GCTrigger::will_oom_on_alloc")
     rt = " ".join(show(strip(t)) for r, t in wo.flow.return_trees())
     names = {c.name for c in live_calls(wo)}
-    ctx.judge("get_max_heap_size_in_pages" in names and "get_current_heap_size_in_pages" not in names and "get_max_heap_size_in_pages" in rt and "Gt" in rt, "C10.oom-after-gc",
+    cmp_ok = False
+    for r, t in wo.flow.return_trees():
+        t = strip(t)
+        if t and t[0] == "bin" and t[1] in ("Gt", "Lt"):
+            big, small = (t[2], t[3]) if t[1] == "Gt" else (t[3], t[2])   # big > small
+            cmp_ok = "get_max_heap_size_in_pages" in show(strip(small)) and "get_max_heap_size_in_pages" not in show(strip(big)) and "arg2" in show(strip(big))
+    ctx.judge("get_max_heap_size_in_pages" in names and "get_current_heap_size_in_pages" not in names and cmp_ok, "C10.oom-after-gc",
               "only requests larger than the *maximum* heap fail without a collection", expected="will_oom_on_alloc compares the request with policy.get_max_heap_size_in_pages()", found=rt[:200], where=where(wo),
               key="C10.obvious|max-heap")
     # the slow path retries until thrown_oom is set: an obvious OOM must mark the request as failed on every path,
@@ -138,7 +145,7 @@ def run(ctx, F):
               found=str(len(st_)), where=where(oom_w), key="C10.obvious-oom-terminates|wrapper")
     thr = [c for c in live_calls(slow, name="load") if show(strip(slow.flow.arg_tree(c, 0))).endswith(".thrown_oom")]
     giveup = [c for c in resets if guard_find(slow, c.bb, r"\.thrown_oom", True)]
-    ctx.judge(bool(thr) and len(giveup) >= 1 and not [x for g_ in giveup for x in calls_after(slow, g_.bb) if x.name and x.name.startswith("alloc_slow_once")], "C10.obvious-oom-terminates",
+    ctx.judge((bool(thr) and len(giveup) >= 1 and not [x for g_ in giveup for x in calls_after(slow, g_.bb) if x.name and x.name.startswith("alloc_slow_once")]) or (bool(thr) and sem["thrown_returns"]), "C10.obvious-oom-terminates",
               "the slow path gives up once the request is marked failed", expected="thrown_oom == true -> reset state and return without retrying", found="loads=%d give-up arms=%d" % (len(thr), len(giveup)),
               where=where(slow), key="C10.obvious-oom-terminates|giveup")
 
@@ -187,6 +194,7 @@ def run(ctx, F):
         strs = sig_strs(acq, gp.bb)
         ok_over = any("allow_overcommit == True" in s for s in strs) and any("GCTrigger::poll" in s and s.endswith("False") for s in strs)
         txt = str(strs)
+    ok_over = ok_over or _overcommit_semantics(acq, gp)
     ctx.judge(ok_over, "C10.overcommit", "Space::acquire tries to get pages iff !gc_triggered || allow_overcommit",
               expected="get_new_pages_and_initialize guarded by poll result and allow_overcommit", found=txt[:400], where=where(acq, gp.line),
               key="C10.overcommit|guard")
@@ -209,3 +217,40 @@ def run(ctx, F):
 def _is_true(t):
     t = strip(t)
     return bool(t) and t[0] == "const" and t[2] is True
+
+
+
+def _slow_path_semantics(F, slow):
+    """Path-sensitive form of the slow-path give-up rules (rules/paths.py): after the first failed attempt, with at_safepoint = false
+    (resp. thrown_oom = true) neither a retry nor the OOM call nor the emergency test can be reached; with at_safepoint = true and
+    thrown_oom = false they can (positive control)."""
+    from .paths import PathEval
+    firsts = [c for c in live_calls(slow) if c.name and c.name.startswith("alloc_slow_once")]
+    out = {"unsafe_returns": False, "thrown_returns": False}
+    if not firsts:
+        return out
+    pe = PathEval(slow, {"safe": r"\.at_safepoint$", "thrown": r"thrown_oom"})
+    BAD = lambda c: c.name in ("out_of_memory", "is_emergency_collection") or (c.name or "").startswith("alloc_slow_once")
+    def bad_after(assign):
+        res = []
+        for f0 in firsts:
+            blocks = pe.after_call(f0, assign)
+            res += [c for c in slow.calls if c.bb in blocks and c.bb in slow.cfg.live and BAD(c)]
+        return res
+    control = bad_after({"safe": True, "thrown": False})
+    if any(c.name == "out_of_memory" for c in control) and any((c.name or "").startswith("alloc_slow_once") for c in control):
+        out["unsafe_returns"] = not bad_after({"safe": False})
+        out["thrown_returns"] = not bad_after({"safe": True, "thrown": True})
+    return out
+
+
+def _overcommit_semantics(acq, gp):
+    """Space::acquire reaches get_new_pages_and_initialize after the GC-trigger poll exactly when !triggered || allow_overcommit."""
+    from .paths import PathEval
+    polls = [c for c in live_calls(acq) if c.name == "poll" and c.q and "GCTrigger" in c.q]
+    if len(polls) != 1:
+        return False
+    pe = PathEval(acq, {"over": r"allow_overcommit$"})
+    P = polls[0]
+    return (gp.bb not in pe.after_call(P, {"over": False}, result=True) and gp.bb in pe.after_call(P, {"over": True}, result=True)
+            and gp.bb in pe.after_call(P, {"over": False}, result=False) and gp.bb in pe.after_call(P, {"over": True}, result=False))
